@@ -89,6 +89,14 @@ func runC02(tier string, seed uint64, o *Out) error {
 			return err
 		}
 	}
+	// the two writers of the watermark (events, idle advance): stepped through VerifAgeSource
+	nmono := 150
+	if tier == "thorough" {
+		nmono = 3000
+	}
+	if err := monoCases(o, NewRNG(seed*0x9E3779B97F4A7C15+0xC02), nmono); err != nil {
+		return err
+	}
 	// idle timeout (reads the wall clock, cannot be stepped): SQL level, judged on observable facts
 	nidle := 3
 	if tier == "thorough" {
